@@ -104,6 +104,18 @@ def check(case, ctx):
                       ("Quaternion.__matmul__", lambda x, y: np.asarray(Q(x, versor=versor) @ y)), ("orientation.q_prod", lambda x, y: o.q_prod(x, y)),
                       ("Quaternion.__mul__(Quaternion)", lambda x, y: np.asarray(Q(x, versor=versor) * Q(y, versor=versor)))):
             forms.invariant(ctx, r, fn, [a, b])
+    # ---- results held at the same time: the product matrices (and conjugates) of two quaternions, all obtained first and used afterwards
+    outh = call(lambda: (A.mult_L(), B.mult_L(), A.mult_R(), B.mult_R(), A.conjugate, B.conjugate, A.mult_L(), o.q_mult_L(aa.copy()), o.q_mult_L(bb.copy()), o.q_mult_R(aa.copy()), o.q_mult_R(bb.copy())))
+    if ctx.returned(outh, route="Quaternion.mult_L"):
+        La, Lb, Ra, Rb, ca_, cb_, La2, fLa, fLb, fRa, fRb = (np.asarray(x, float) for x in outh.value)
+        det = {"note": "all results obtained before any is used"}
+        ctx.le("two left product matrices held at once are each their own quaternion's", max(rel(La @ cc, rq.qmul(aa, cc), na * nc), rel(Lb @ cc, rq.qmul(bb, cc), nb * nc), rel(La2 @ cc, rq.qmul(aa, cc), na * nc)), REL, det,
+               route="Quaternion.mult_L")
+        ctx.le("two right product matrices held at once are each their own quaternion's", max(rel(Ra @ cc, rq.qmul(cc, aa), na * nc), rel(Rb @ cc, rq.qmul(cc, bb), nb * nc)), REL, det, route="Quaternion.mult_R")
+        ctx.le("two conjugates held at once are each their own quaternion's", max(rel(ca_, rq.qconj(aa), na), rel(cb_, rq.qconj(bb), nb)), REL, det, route="Quaternion.conjugate")
+        ua_, ub_ = aa / na, bb / nb      # (the free functions normalise)
+        ctx.le("free-function product matrices held at once are each their own quaternion's", max(rel(fLa @ cc, rq.qmul(ua_, cc), nc), rel(fLb @ cc, rq.qmul(ub_, cc), nc), rel(fRa @ cc, rq.qmul(cc, ua_), nc),
+               rel(fRb @ cc, rq.qmul(cc, ub_), nc)), REL, det, route="orientation.q_mult_L")
     # ---- objects obtained from a Quaternion by NumPy arithmetic or by modifying a copy (-q, q/2, np.negative(q), c = q.copy(); c[k] = ...): they are
     # Quaternion objects with values of their own, and the algebra must be that of those values
     kk = int(abs(float(aa[1])) * 1e6) % 4
